@@ -46,4 +46,3 @@ func debugDump(c *Ctx, what string) {
 	}
 }
 
-func runThoroughExtras(c *Ctx, r *Report, p *propDef) {}
